@@ -419,6 +419,31 @@ func (n *simNet) resetPair(c *simConn) {
 
 func (n *simNet) noteClosed(c *simConn) {}
 
+// pendingBytes reports whether any connection still has bytes in flight (latency/fragments).
+func (n *simNet) pendingBytes() bool {
+	n.mu.Lock()
+	conns := append([]*simConn(nil), n.conns...)
+	n.mu.Unlock()
+	for _, c := range conns {
+		for _, h := range []*simHalf{c.r, c.w} {
+			h.mu.Lock()
+			p := len(h.pending) > 0 && !h.reset
+			h.mu.Unlock()
+			if p {
+				return true
+			}
+		}
+	}
+	return false
+}
+
+// drain lets virtual time pass until nothing is in flight any more (bounded).
+func (n *simNet) drain() {
+	for i := 0; i < 2000 && n.pendingBytes(); i++ {
+		time.Sleep(10 * time.Millisecond)
+	}
+}
+
 // openServerConns returns the gobgp-side ends that gobgp has not closed.
 func (n *simNet) openServerConns() []*simConn {
 	n.mu.Lock()
